@@ -5,7 +5,12 @@ HERE = os.path.dirname(os.path.abspath(__file__))
 
 
 def harness_files(tier, seed):
-    return [os.path.join(HERE, 'hC09.py')]
+    files = [os.path.join(HERE, 'hC09.py')]
+    if tier == 'thorough':
+        # the 24 depth-3 type expressions drawn from the grammar with VERIF_SEED (props/gen_types.py), under this property's oracle
+        os.environ['VERIF_SEED'] = str(seed)
+        files.append(os.path.join(HERE, 'hC09g.py'))
+    return files
 
 
 META = dict(
@@ -13,7 +18,7 @@ META = dict(
            "list/dict proxies or real containers of symbolic leaves); nested internally tagged unions (2 levels, optionally in a "
            "list); mappings of kind dict/defaultdict(int)/defaultdict(list)/OrderedDict with missing and extra keys",
     configs="all mapping- and sequence-consuming converter instances; entry points try_convert, collect_errors, from_data, "
-            "convert, into_data, Cls(...)",
+            "convert, into_data, Cls(...) + thorough tier: 24 type expressions of nesting depth 3 drawn from the grammar with VERIF_SEED (props/gen_types.py), type-directed values with 3 symbolic leaf slots, under this property's oracle",
     stubs=[],
     outside=["mutation through user-supplied hooks/constructors (they are the user's code)"],
     assumptions=["oracle: deep type-tagged snapshot of the argument before vs after (NaN-aware)"],
